@@ -229,8 +229,22 @@ def conforms(v, spec, why=None, inst_check=None):
         r = constraints.all_hold(cons, v)
         if r is False:
             return no(f"con:{spec.get('o')}/constraint-violated:{_first_violated(cons, v)}")
-        if spec.get("contains") is not None:
-            pass  # contains counts convertible elements: judged in C02 on well-typed values
+        if spec.get("contains") is not None and isinstance(v, (list, tuple, set, frozenset)):
+            # documented: at least one element (at least min_contains, at most max_contains) converts to the contained type;
+            # whether one element converts is the library's own standalone verdict (the exact counting on well-typed values is C02's)
+            import utype
+            from . import oracle
+            CT = build(spec["contains"])
+            n = 0
+            for e in v:
+                r = oracle.outcome(utype.type_transform, e, CT)
+                if r[0] == "ok":
+                    n += 1
+                elif r[0] == "hang":
+                    return True
+            lo, hi = spec.get("min_contains"), spec.get("max_contains")
+            if n < max(1, lo or 0) or (hi and n > hi):
+                return no(f"con:{spec.get('o')}/contains-count:{min(n, 3)}")
         return True
     if k in SEQ_KINDS:
         origin = SEQ_KINDS[k]
